@@ -115,6 +115,11 @@ def classify(run, m, c, e, line, o, sw):
             run.violation("oracle:oneshot(%s)" % syn, dict(replay, what="a valid encoding is not decoded one-shot to the value with full consumption (expected OK %d %s)" % (n, c["der"])))
     # ---- 2-chunk splits
     for (s, rc, total, dereq) in sw["badsplit"]:
+        if e.get("fail_code_only") and sw["rc"] == "FAIL" and rc == "FAIL":
+            # an input the one-shot call REJECTS (third layer: contradicting lengths; forms mixed in one chain, open C03 defect): the
+            # property speaks of encodings; what can be asked here is the same verdict, not the octet count of a rejected input
+            # (a nested decoder reports its own count on RC_FAIL, without what its member had taken before starving)
+            continue
         run.violation("oracle:split(%s)" % syn, dict(replay, what="fed as [0,%d)+[%d,%d): %s consumed %d value-equal=%s; one-shot: %s consumed %d"
                                                      % (s, s, n, rc, total, dereq, sw["rc"], sw["consumed"]), split=s))
     # ---- proper prefixes
@@ -158,6 +163,8 @@ def sweep_items(run, m, items, rng, quick, name):
         run.count("sched_" + ("rep" if "*" in sc else "k") + "_feed")
         got = r.split()
         if len(got) == 4 and (got[0], int(got[1]), got[2]) == (sw["rc"], sw["consumed"], sw["der"]):
+            continue
+        if len(got) == 4 and e.get("fail_code_only") and sw["rc"] == "FAIL" and got[0] == "FAIL":
             continue
         if r != "CRASH":
             run.violation("oracle:schedule(%s)" % e["syn"], {"what": "schedule %s: %s; one-shot: %s %d %s" % (sc[:80], r[:200], sw["rc"], sw["consumed"], sw["der"][:80]),
@@ -329,7 +336,7 @@ def tagmode_part(run, model, tm, rng, tier, have_model_t=True):
             seen.add(bs)
             e = {"syn": "ber", "label": "tm:" + label.split(":")[0].rstrip("0123456789"), "full_label": label, "hex": bs.hex(), "v": v}
             if fl["mixed"] or fl["invalid"]:
-                e["expect_oneshot_fail"] = True
+                e["expect_oneshot_fail"] = e["fail_code_only"] = True
                 e["mixed_chain" if fl["mixed"] else "invalid"] = True
             items.append((c, e))
     res = sweep_items(run, tm, items, rng, quick, "C05-tagmode-sweep")
